@@ -4,7 +4,7 @@
 set -u
 V=$(cd "$(dirname "$0")/.." && pwd)
 cd $V
-PROPS=$($V/bin/goparcheck -list | tr ' ' '\n' | grep -v T01 | tr '\n' ' ')
+PROPS=$(${GPC:-$V/bin/goparcheck} -list | tr ' ' '\n' | grep -v T01 | tr '\n' ' ')
 one() {
   patch=$1; name=$2; target=$3
   S=$(mktemp -d /tmp/gpmx.XXXXXX)
@@ -13,7 +13,7 @@ one() {
   if ! (cd $S/repo && git apply --3way --whitespace=nowarn "$patch" >/dev/null 2>&1); then echo "$name target=$target APPLY-FAIL"; rm -rf $S; return; fi
   det=""; err=""
   for p in $PROPS; do
-    $V/bin/goparcheck -property $p -tier ${TIER:-quick} -repo $S/repo -verif $V -evidence-dir $S/ev >/dev/null 2>&1; rc=$?
+    ${GPC:-$V/bin/goparcheck} -property $p -tier ${TIER:-quick} -repo $S/repo -verif $V -evidence-dir $S/ev >/dev/null 2>&1; rc=$?
     [ $rc -eq 1 ] && det="$det $p"
     [ $rc -ge 2 ] && err="$err $p"
   done
@@ -22,7 +22,7 @@ one() {
   echo "$name target=$target hit=$hit detected_by=[${det# }] errors=[${err# }]"
   rm -rf $S
 }
-export -f one; export V PROPS
+export -f one; export V PROPS GPC
 list=()
 if [ $# -eq 0 ]; then
   for d in seeded/*/; do id=$(basename $d); list+=("$V/seeded/$id/patch.diff|$id|${id%%-*}"); done
